@@ -1,5 +1,251 @@
-//! Column administration and option checks (C17). Filled in later.
-use crate::exec::Exec;
-use crate::world::*;
+//! Column administration and option checks (C17).
 
-pub fn admin(_ex: &mut Exec, _a: &AdminOp) {}
+use crate::exec::{column_options, Exec};
+use crate::prng::fnv64;
+use crate::simdisk;
+use crate::world::*;
+use parity_db::Db;
+use std::sync::Arc;
+
+/// Hash of a directory: names, sizes and content of every file except `lock`.
+pub fn dir_hash(dir: &str) -> u64 {
+	simdisk::muted(|| {
+		let mut names: Vec<String> = std::fs::read_dir(dir)
+			.map(|rd| rd.filter_map(|e| e.ok()).filter_map(|e| e.file_name().into_string().ok()).collect())
+			.unwrap_or_default();
+		names.sort();
+		let mut h = 0u64;
+		for n in names {
+			if n == "lock" {
+				continue
+			}
+			h = fnv64(h, n.as_bytes());
+			let sh = simdisk::read_sparse(&format!("{dir}/{n}"));
+			h = fnv64(h, &sh.size.to_le_bytes());
+			let mut pgs: Vec<&u64> = sh.pages.keys().collect();
+			pgs.sort();
+			for p in pgs {
+				h = fnv64(h, &p.to_le_bytes());
+				h = fnv64(h, &sh.pages[p]);
+			}
+		}
+		h
+	})
+}
+
+fn empty_model(kind: ColKind) -> ColModel {
+	if kind.is_tree() {
+		ColModel::Tree(TreeModel::default())
+	} else {
+		ColModel::Kv(KvModel::default())
+	}
+}
+
+fn new_col_cfg(kind: ColKind, seed: u64) -> ColCfg {
+	let mut r = crate::prng::Rng::new(seed);
+	let mut keys = Vec::new();
+	for i in 0..6u8 {
+		let mut k = vec![0u8; if kind == ColKind::HashUniform { 32 } else { 5 + i as usize }];
+		r.fill(&mut k);
+		keys.push(k);
+	}
+	let preimage_vals =
+		if kind.is_preimage() { keys.iter().map(|_| ValSpec { len: 12, seed: r.next(), compressible: false }).collect() } else { Vec::new() };
+	ColCfg { kind, compression: 0, threshold: 4096, keys, preimage_vals }
+}
+
+pub fn admin(ex: &mut Exec, a: &AdminOp, pending: bool) {
+	if !ex.has_db() || crate::treeops::any_locked(ex) {
+		return
+	}
+	ex.stats.probe("admin_ops");
+	let n = ex.hist.len() - 1;
+	let lo = ex.n_synced;
+	let hi = ex.logged();
+	// 1. close: cleanly, or continue on an image with unreplayed logs
+	if pending {
+		let live = ex.live.clone();
+		let img = ex.next_dir("adm");
+		simdisk::muted(|| simdisk::copy_dir(&live, &img, true));
+		ex.abandon();
+		simdisk::muted(|| {
+			let _ = std::fs::remove_dir_all(&live);
+		});
+		ex.live = img.clone();
+		simdisk::with(|d| d.set_root(&img));
+		let has_logs = simdisk::muted(|| {
+			std::fs::read_dir(&img)
+				.map(|rd| {
+					rd.filter_map(|e| e.ok())
+						.any(|e| e.file_name().to_str().map_or(false, |n| n.starts_with("log")) && e.metadata().map(|m| m.len() > 0).unwrap_or(false))
+				})
+				.unwrap_or(false)
+		});
+		if has_logs {
+			ex.stats.probe("admin_with_pending_logs");
+		}
+	} else {
+		ex.close();
+		ex.mark_restart();
+	}
+	let dir = ex.live.clone();
+	let mut options = ex.options_for(&dir);
+	let affected: Option<usize>;
+	let mut new_kinds = ex.col_kinds.clone();
+	let mut new_cfgs = ex.col_cfgs.clone();
+	match a {
+		AdminOp::OpenMismatch { col, field } => {
+			let c = *col as usize % options.columns.len();
+			let before = dir_hash(&dir);
+			let mut o2 = options.clone();
+			let co = &mut o2.columns[c];
+			match field % 7 {
+				0 => co.preimage = !co.preimage,
+				1 => co.uniform = !co.uniform,
+				2 => co.ref_counted = !co.ref_counted,
+				3 =>
+					co.compression = if co.compression == parity_db::CompressionType::NoCompression {
+						parity_db::CompressionType::Lz4
+					} else {
+						parity_db::CompressionType::NoCompression
+					},
+				4 => co.btree_index = !co.btree_index,
+				5 => co.multitree = !co.multitree,
+				_ => co.append_only = !co.append_only,
+			}
+			if o2.columns.iter().all(|c| c.is_valid()) {
+				match Db::open(&o2) {
+					Ok(db) => {
+						drop(db);
+						ex.push_violation("C17", "mismatch-accepted", format!("open with a differing flag (field {}) of column {c} succeeded", field % 7));
+					},
+					Err(_) => {
+						ex.stats.probe("admin_mismatch_refused");
+						let after = dir_hash(&dir);
+						if after != before {
+							ex.push_violation("C17", "failed-open-modified-files", format!("a refused open (flag {} of column {c} differs) modified database files", field % 7));
+						}
+					},
+				}
+			}
+			affected = None;
+		},
+		AdminOp::OpenWrongCount(d) => {
+			let before = dir_hash(&dir);
+			let mut o2 = options.clone();
+			if *d < 0 && o2.columns.len() > 1 {
+				o2.columns.pop();
+			} else {
+				o2.columns.push(Default::default());
+			}
+			match Db::open(&o2) {
+				Ok(db) => {
+					drop(db);
+					ex.push_violation("C17", "mismatch-accepted", "open with a different number of columns succeeded".into());
+				},
+				Err(_) => {
+					let after = dir_hash(&dir);
+					if after != before {
+						ex.push_violation("C17", "failed-open-modified-files", "a refused open (column count differs) modified database files".into());
+					}
+				},
+			}
+			// also: a missing database without create
+			let missing = format!("{dir}-missing");
+			let o3 = ex.options_for(&missing);
+			if Db::open(&o3).is_ok() || simdisk::muted(|| std::path::Path::new(&missing).exists()) {
+				ex.push_violation("C17", "missing-db-created", "open without create on a missing path succeeded or created something".into());
+			}
+			affected = None;
+		},
+		AdminOp::AddColumn(kind) => {
+			let k = ColKind::parse(kind);
+			let cc = new_col_cfg(k, fnv64(0, kind.as_bytes()) ^ n as u64);
+			match Db::add_column(&mut options, column_options(&cc)) {
+				Ok(()) => {
+					new_kinds.push(k);
+					new_cfgs.push(cc);
+					affected = Some(new_kinds.len() - 1);
+				},
+				Err(e) => {
+					ex.push_violation("C17", "admin-call-failed", format!("add_column failed: {e}"));
+					return
+				},
+			}
+		},
+		AdminOp::DropLastColumn => {
+			if new_kinds.len() < 2 {
+				affected = None;
+			} else {
+				match Db::drop_last_column(&mut options) {
+					Ok(()) => {
+						new_kinds.pop();
+						new_cfgs.pop();
+						affected = Some(usize::MAX);
+					},
+					Err(e) => {
+						ex.push_violation("C17", "admin-call-failed", format!("drop_last_column failed: {e}"));
+						return
+					},
+				}
+			}
+		},
+		AdminOp::ResetColumn(c, kind) => {
+			let c = *c as usize % new_kinds.len();
+			let newopt = kind.as_ref().map(|k| {
+				let kk = ColKind::parse(k);
+				let cc = new_col_cfg(kk, fnv64(0, k.as_bytes()) ^ n as u64);
+				(kk, cc)
+			});
+			match Db::reset_column(&mut options, c as u8, newopt.as_ref().map(|(_, cc)| column_options(cc))) {
+				Ok(()) => {
+					if let Some((kk, cc)) = newopt {
+						new_kinds[c] = kk;
+						new_cfgs[c] = cc;
+					}
+					affected = Some(c);
+				},
+				Err(e) => {
+					ex.push_violation("C17", "admin-call-failed", format!("reset_column failed: {e}"));
+					return
+				},
+			}
+		},
+		AdminOp::ClearColumn(c) => {
+			let c = *c as usize % new_kinds.len();
+			match parity_db::clear_column(std::path::Path::new(&dir), c as u8) {
+				Ok(()) => affected = Some(c),
+				Err(e) => {
+					ex.push_violation("C17", "admin-call-failed", format!("clear_column failed: {e}"));
+					return
+				},
+			}
+		},
+	}
+	// 2. the model: other columns unchanged, affected column empty / new / gone
+	let transform = |cols: &Vec<ColModel>| -> Vec<ColModel> {
+		let mut v = cols.clone();
+		match affected {
+			None => {},
+			Some(usize::MAX) => {
+				v.pop();
+			},
+			Some(c) if c >= v.len() => v.push(empty_model(new_kinds[c])),
+			Some(c) => v[c] = empty_model(new_kinds[c]),
+		}
+		v
+	};
+	let new_hist: Vec<State> = ex.hist.iter().map(|s| Arc::new(transform(s))).collect();
+	ex.col_kinds = new_kinds;
+	ex.col_cfgs = new_cfgs;
+	ex.ncols = ex.col_kinds.len();
+	ex.hist = new_hist;
+	ex.cur = (*ex.hist[ex.hist.len() - 1]).clone();
+	ex.resize_cols();
+	// 3. reopen and compare
+	let (lo, hi) = if pending { (lo, hi) } else { (n, n) };
+	if ex.verify_and_adopt(&dir, lo, hi, &format!("open after {:?}{}", a, if pending { " on a directory with unreplayed logs" } else { "" }), false).is_some() {
+		ex.collapse_history();
+		ex.sweep();
+	}
+}
